@@ -450,6 +450,32 @@ def tlsconnSpec (args tr impl : List String) : String :=
      | _, _ => "bad-op")
   | _ => "bad-op"
 
+/-- `tlsdial`: the proxy's own TLS connection to a home server at 127.0.0.1 - up (1) iff the server's chain verifies and its
+    certificate meets the server block's conditions against the host connected to (`verifyconfcert(cert, conf, hp, realm)`) -/
+def tlsdialParts (args : List String) : Option (Bool × VCert) :=
+  match splitGroups args with
+  | [certToks, blk] =>
+    let host := toHex "127.0.0.1".toUTF8.toList
+    (parseVCert (blk ++ certToks ++ [s!"hosts={host}/255", s!"connected={host}/255"])).map fun v => (kvTok certToks "ca" != some "other", v)
+  | _ => none
+
+def tlsdialModel (args tr : List String) : String :=
+  match tlsdialParts args with
+  | some (trusted, v) => if trusted && Cert.verifyConf (libOf tr) v.conf v.cert v.connected v.realm then "tlsdial ret=1" else "tlsdial ret=0"
+  | none => "bad-op"
+
+def tlsdialSpec (args tr impl : List String) : String :=
+  if impl.any (·.startsWith "crash") then "bad sanitizer-or-crash" else
+  match tlsdialParts args with
+  | some (trusted, v) =>
+    if impl == ["tlsdial", "ret=1"] then
+      (if !trusted then "bad C15:server-with-a-certificate-from-an-untrusted-issuer-accepted"
+       else if !Spec.Cert.acceptB (libOf tr true) v.conf v.cert v.connected v.realm then
+         "bad C15:connection-to-a-server-whose-certificate-does-not-meet-the-blocks-conditions-is-up"
+       else "ok")
+    else "ok"
+  | none => "bad-op"
+
 /-- canonical line of the dynamic-lookup op, as the harness prints it -/
 def showLookup (r : Option (Bytes × DynRealm.Lookup)) : String :=
   match r with
